@@ -17,7 +17,7 @@ var garbageFixed = []string{
 	"@#$ ^&", "!important", "width: !important", "(width: 10px)", "[;]", "(a;b): c", "foo: (1;2)",
 	"color: red !importan", "color: red ! important x", "color: red !important !important", "width: 10px !ie",
 	"margin: 1px 2px 3px 4px 5px", "border: 1px solid red blue", "border: solid solid", "padding: -1px", "font: italic",
-	"width: 10px 20px", "display: block block", "float: top", "z-index: 1.5", "orphans: 0", "opacity: red",
+	"width: 10px 20px", "color: 12px", "outline-color: 1", "color: rgb(1,2)", "display: block block", "float: top", "z-index: 1.5", "orphans: 0", "opacity: red",
 	"width: 12xyz", "height: auto auto", "font-size: -2px", "line-height: -1", "background-color: #12", "background-color: #12345",
 	"background-color: rgb(1,2)", "border-top-color: rgb(1 2 3 4 5)", "content: bogus(1)", "quotes: \"a\"", "counter-reset: 3", "text-decoration-line: underline underline",
 	"transform: rotate(10px)", "transform: scale()", "margin-top: 1px,2px", "top: 10", "width: 10 px", "width: +", "width: --", "width: 1e", "width: #",
@@ -46,9 +46,8 @@ func genGarbage(r *rand.Rand, valid []declT) string {
 		d, _ := genDecl(r)
 		return pick(r, "x-", "moz", "foo-") + d.Name + ": " + d.V.canon()
 	}
-	if !on("nested-rule-error-drops-rule") && r.Intn(10) == 0 {
-		// F-C08-nested-rule-error-drops-rule: a nested rule whose selector does not parse makes
-		// PreprocessDeclarationsPrelude fail, and the whole enclosing rule is dropped.
+	if r.Intn(10) == 0 {
+		// a nested rule whose selector does not parse is dropped alone (repaired in c440a0b)
 		return pick(r, "12 { a: b }", "p:bogus-pseudo { color: red }", "p::: { color: red }")
 	}
 	if !on("empty-prelude-nested-rule") && r.Intn(10) == 0 {
@@ -56,7 +55,7 @@ func genGarbage(r *rand.Rand, valid []declT) string {
 		return "{ color: red }"
 	}
 	if !on("invalid-accepted") && r.Intn(10) == 0 {
-		return pick(r, "color: 12px", "outline-color: 1", "tab-size: red", "bleed-left: red", "transform-origin: red blue")
+		return pick(r, "tab-size: red", "bleed-left: red", "transform-origin: red blue")
 	}
 	return garbageFixed[r.Intn(len(garbageFixed))]
 }
